@@ -221,6 +221,11 @@ def unbounded_poisson_solver_native_convolution(K, shape):
     dx = L / shape[-1]
     cls = K.repo(f"{SOLVER_MODS[dim]}:UnboundedPoissonSolverPYFFTW{dim}D")
     kw = {f"grid_size_{a}": shape[i] for i, a in enumerate("zyx"[3 - dim:])}
+    # call history: another solver object (other extents, other domain length, single precision) constructed and used first
+    other_kw = {k: v + 1 + i for i, (k, v) in enumerate(kw.items())}
+    other = cls(x_range=np.float32(0.5 * L), num_threads=1, real_t=np.float32, **other_kw)
+    oshape = tuple(other_kw[f"grid_size_{a}"] for a in "zyx"[3 - dim:])
+    other.solve(solution_field=np.zeros(oshape, dtype=np.float32), rhs_field=K.rng.normal(size=oshape).astype(np.float32))
     sol = cls(x_range=L, num_threads=2, real_t=np.float64, **kw)
     first = K.field("earlier_rhs", shape)
     scratch = np.zeros(shape)
